@@ -5,7 +5,8 @@
    arbitrary lists of wrapper operations over an arbitrary number of wrappers; wrapped objects
    are arbitrary values (size class, copyability, behaviour, payload, mutable call state). *)
 From Coq Require Import List Bool Arith ZArith NArith Permutation.
-From Pika Require Import Gen.GenErased Model.Erased Proofs.ErasedProofs Proofs.ErasedSpecProofs Proofs.ErasedThrowProofs.
+From Pika Require Import Gen.GenErased Gen.GenErasedSteps Model.Erased Model.ErasedSteps Model.ErasedBlocks
+  Proofs.ErasedProofs Proofs.ErasedSpecProofs Proofs.ErasedThrowProofs Proofs.ErasedStepsProofs Proofs.ErasedBlocksProofs.
 Import ListNotations.
 
 (* --- erased_transparent: for every history, what an observer sees of the wrappers (outcome of
@@ -268,6 +269,94 @@ Theorem C18_class_bits_decide : forall sbo k size align v,
   class_ok sbo k size align (vbig v) (valn v) = true -> can_embed sbo v = sender_embeds sbo k size align.
 Proof. exact class_bits_decide. Qed.
 Print Assumptions C18_class_bits_decide.
+
+(* --- the ORDER of the primitive steps of every special member (function_base / basic_function, the vtable
+   leaves, movable_/copyable_sbo_storage with and without the SBO macro), regenerated from the source by
+   tools/genmods/c18.py (Gen/GenErasedSteps.v), is the order the model was transcribed from
+   (Model/ErasedSteps.v).  Reordering two statements of such a member breaks this theorem (or, for a
+   statement of unknown shape, the translator). *)
+Theorem C18_source_steps_are_model_steps :
+  function_members = m_function_members /\ forall sbo, sender_members sbo = m_sender_members sbo.
+Proof. exact source_steps_are_model_steps. Qed.
+Print Assumptions C18_source_steps_are_model_steps.
+
+(* --- the allocation ledger (Model/ErasedBlocks.v): heap blocks as a ghost multiset (allocated, freed); the
+   allocation-relevant routines (vtable::allocate, _deallocate, copyable_vtable::_copy, basic_function::assign)
+   are INTERPRETED from the regenerated step lists.
+   For every history of function / unique_function operations (no throwing constructors): the blocks
+   allocated and not yet freed are exactly the blocks owned by the wrappers (Heap: one, Nested: one + the inner
+   wrapper's; by C18_no_object_shared_functions no two wrappers hold the same object, so no block has two
+   owners), and when all wrappers have been destroyed none remains. *)
+Theorem C18_no_block_leaked : forall n ops,
+  let r := brun ops (init n) b0 in
+  fst r = run fstep ops (init n) /\
+  b_alloc (snd r) = b_free (snd r) + owned (slots (fst r)) /\
+  live (snd r) = owned (slots (fst r)) /\
+  live (bdestroy_all (fst r) (snd r)) = 0 /\
+  b_alloc (bdestroy_all (fst r) (snd r)) = b_free (bdestroy_all (fst r) (snd r)).
+Proof. exact no_block_leaked_f. Qed.
+Print Assumptions C18_no_block_leaked.
+
+(* the same for unique_any_sender / any_sender, with and without the SBO macro (new Impl / clone() allocate,
+   delete heap_storage frees; the embedded paths allocate nothing; the operation state of a connect is one
+   transient block when it does not fit the holder) *)
+Theorem C18_no_block_leaked_senders : forall sbo n ops,
+  let r := sbrun sbo ops (init n) b0 in
+  fst r = run (sstep sbo) ops (init n) /\
+  b_alloc (snd r) = b_free (snd r) + owned (slots (fst r)) /\
+  live (snd r) = owned (slots (fst r)) /\
+  live (bdestroy_all (fst r) (snd r)) = 0 /\
+  b_alloc (bdestroy_all (fst r) (snd r)) = b_free (bdestroy_all (fst r) (snd r)).
+Proof. exact no_block_leaked_s. Qed.
+Print Assumptions C18_no_block_leaked_senders.
+
+(* what the interpreted lists do on the path of a big T whose constructor throws (basic_function::assign,
+   else-branch; copyable_vtable::_copy): one block allocated, none freed, no constructor completed *)
+Theorem C18_throwing_construction_leaks_block :
+  (let r := run_assign true false true in v_alloc r = 1 /\ v_free r = 0 /\ v_ctor r = 0 /\ v_threw r = true) /\
+  (let r := run_copy true false true in v_alloc r = 1 /\ v_free r = 0 /\ v_ctor r = 0 /\ v_threw r = true).
+Proof. exact throwing_construction_leaks_block. Qed.
+Print Assumptions C18_throwing_construction_leaks_block.
+
+(* finding C18:FUNL:blocks_leaked: function(function const&) and function(F&&) with a throwing constructor of
+   a big T: every wrapper stays consistent, no object is leaked or destroyed twice, but two heap blocks have no
+   owner.  The harness replays this shape (FUNL cases); c18.py compares the per-step live count and the count at
+   scope exit with the allocation monitor of the harness for EVERY case. *)
+Theorem C18_blocks_leaked_refuted :
+  exists n ops, let r := gbrun ops (xinit n) b0 in
+    fst (gblive ops (xinit n) b0) = [1; 2; 3; 3] /\
+    owned (slots (xs (fst r))) = 1 /\
+    leaked_at_exit (xs (fst r)) (snd r) = 2 /\
+    (forall j, nth j (stale (fst r)) None = None) /\
+    ctors (led (destroy_all (xs (fst r)))) = [2; 1; 0] /\ dtors (led (destroy_all (xs (fst r)))) = [1; 2; 0].
+Proof. exact blocks_leaked_refuted. Qed.
+Print Assumptions C18_blocks_leaked_refuted.
+
+(* finding C18:FUN:misaligned, on the regenerated facts: vtable::allocate / _deallocate do not look at alignof(T)
+   and the inline buffer is pointer-aligned, so a T that fits is placed inline whatever its alignment *)
+Theorem C18_function_misaligned_refuted :
+  allocate_tests_alignment = false /\ deallocate_tests_alignment = false /\
+  exists size align, function_inline size = true /\ (function_buffer_alignment < align)%N /\
+                     function_misplaced size align = true.
+Proof. exact function_misaligned_refuted. Qed.
+Print Assumptions C18_function_misaligned_refuted.
+
+Theorem C18_function_aligned_guarded : forall size align,
+  (align <= function_buffer_alignment)%N -> function_misplaced size align = false.
+Proof. exact function_aligned_guarded. Qed.
+Print Assumptions C18_function_aligned_guarded.
+
+(* the regenerated buffer sizes and alignment are the ones the class bits of the histories were chosen for
+   (the small test types sit exactly on the boundary) *)
+Theorem C18_storage_boundaries :
+  function_storage_size = 24%N /\ function_inline 24 = true /\ function_inline 25 = false /\
+  unique_any_sender_embedded_size = 32%N /\ any_sender_embedded_size = 32%N /\ operation_state_embedded_size = 64%N /\
+  sbo_alignment_size = 8%N /\
+  sender_embeds true KUnique 32 8 = true /\ sender_embeds true KUnique 33 8 = false /\
+  sender_embeds true KAny 32 8 = true /\ sender_embeds true KAny 33 8 = false /\
+  sender_embeds true KOpState 64 8 = true /\ sender_embeds true KOpState 65 8 = false.
+Proof. exact storage_boundaries. Qed.
+Print Assumptions C18_storage_boundaries.
 
 (* --- non-vacuity: concrete histories *)
 Definition small_copyable (beh : N) (k : Z) : oval :=
